@@ -108,7 +108,9 @@ CONFIG = {
         "protocompile's linker and option interpreter: third party, NOT modelled (the grammar model reads option names and "
         "literals syntactically; C05_reparse_partial keeps the relation of name resolution to the kernels as a hypothesis, "
         "structure Reader); C05_reprint_fixed takes 'the reader finds the elements where the printer put them' (relaidFile) as "
-        "an explicit hypothesis, checked on a concrete file and - through the second summary - by print.file",
+        "an explicit hypothesis; C05_reparse proves it (parse (print d) = reading, relaid, print reading = print d) for the "
+        "grammar MODEL and the shape SimpleFile (messages, nested messages, enums, fields, values, package, imports); for files "
+        "with options, services, comments, maps the reading is validated by print.file only",
         "float option values (strconv.FormatFloat) and enum value names are opaque texts produced by Go (oracle)",
         "Go harness internal/verifh/printh, overlay hook files, generators (own + j5sgen), check engine",
     ],
